@@ -509,11 +509,43 @@ pub fn add(run: &mut Run, kf: &KnownFindings, tier: &str, wall: u64) {
     let mut per_method: BTreeMap<&'static str, u64> = BTreeMap::new();
     let mut found: BTreeMap<String, (String, String)> = BTreeMap::new();
     let mut capped = false;
-    'outer: for e in &cat {
-        for p in &plans {
+    // Thorough: the quick tier's plans for every method first (completely), then the longer
+    // plans plan by plan across all methods, so that a wall cap cuts every method at the same
+    // plan and the evidence can say which prefix of the plan list was completed everywhere.
+    let quick_plans = if quick { Vec::new() } else { self::plans(true) };
+    let order: Vec<(usize, &Plan)> = {
+        let mut v: Vec<(usize, &Plan)> = Vec::new();
+        for ei in 0..cat.len() {
+            for p in quick_plans.iter() {
+                v.push((ei, p));
+            }
+        }
+        if quick {
+            for ei in 0..cat.len() {
+                for p in &plans {
+                    v.push((ei, p));
+                }
+            }
+        } else {
+            for p in &plans {
+                for ei in 0..cat.len() {
+                    v.push((ei, p));
+                }
+            }
+        }
+        v
+    };
+    let mut long_plans_done = 0usize;
+    #[allow(clippy::never_loop)]
+    'outer: loop {
+        for (n, (ei, p)) in order.iter().enumerate() {
+            let e = &cat[*ei];
             if t0.elapsed().as_secs() > wall {
                 capped = true;
                 break 'outer;
+            }
+            if !quick && n >= quick_plans.len() * cat.len() {
+                long_plans_done = (n - quick_plans.len() * cat.len()) / cat.len();
             }
             let d = root.sub("case");
             let s = root.sub("fresh");
@@ -542,6 +574,10 @@ pub fn add(run: &mut Run, kf: &KnownFindings, tier: &str, wall: u64) {
                     .or_insert((format!("{p:?}"), detail));
             }
         }
+        if !quick {
+            long_plans_done = plans.len();
+        }
+        break;
     }
     run.cov_add("states", outcomes.len() as u64);
     run.cov_add("transitions", cases);
@@ -559,6 +595,8 @@ pub fn add(run: &mut Run, kf: &KnownFindings, tier: &str, wall: u64) {
         "from_scratch_run_undefined (skipped)": undefined,
         "float_rounding_only (not judged)": rounding,
         "cap_hit": capped,
+        "thorough: quick-tier plans completed for every method before the longer ones": !quick,
+        "thorough: longer plans completed for every method (prefix of the plan list)": long_plans_done,
         "not_in_catalogue": ["compute_rolling_average", "compute_rolling_sd", "compute_expanding_sd", "compute_rolling_ratio", "compute_zscore", "compute_weighted_average_of_others", "compute_indirect_sequential", "compute_first_per_index", "compute_filtered_sum_from_indexes", "compute_filtered_count_from_indexes"],
     }));
     run.cov("explorations", ex);
